@@ -1,2 +1,161 @@
-use crate::Scenario;
-pub fn scenarios() -> Vec<Scenario> { vec![] }
+//! C20: secret-bearing types.  Their Debug rendering contains no encoding of a secret scalar, and
+//! explicit zeroization leaves every secret scalar zero.  (That dropping a value leaves no copy in
+//! the storage it occupied needs raw memory inspection; that part is covered by the Kani harnesses,
+//! not here.)
+
+use frost_core as fc;
+use frost_core::keys::dkg;
+use frost_core::keys::{KeyPackage, SecretShare};
+use serde_json::json;
+use zeroize::Zeroize;
+
+use crate::common::*;
+use crate::rng::TestRng;
+use crate::{scn, Scenario};
+
+pub fn scenarios() -> Vec<Scenario> {
+    vec![scn!(scenario_debug_is_redacted), scn!(scenario_zeroize_leaves_zero)]
+}
+
+/// every textual form in which the scalar could leak
+fn renderings(secret: &[u8]) -> Vec<String> {
+    let mut rev = secret.to_vec();
+    rev.reverse();
+    let mut v = vec![hex(secret), hex(secret).to_uppercase(), hex(&rev), hex(&rev).to_uppercase()];
+    // decimal byte lists as printed by `{:?}` of arrays / vectors
+    v.push(format!("{secret:?}"));
+    v.push(format!("{rev:?}"));
+    // a leak of half the scalar is a leak
+    let h = hex(secret);
+    v.push(h.get(..h.len() / 2).unwrap_or("").to_string());
+    v.push(h.get(h.len() / 2..).unwrap_or("").to_string());
+    v.retain(|s| s.len() >= 16);
+    v
+}
+
+fn no_leak(type_name: &str, rendered: &[String], secrets: &[(&str, Vec<u8>)]) -> Verdict {
+    for text in rendered {
+        for (what, s) in secrets {
+            for needle in renderings(s) {
+                if text.contains(&needle) {
+                    let mut shown = text.clone();
+                    shown.truncate(300);
+                    return fail(
+                        &format!("the Debug rendering of {type_name} contains no encoding of its {what}"),
+                        "redacted",
+                        format!("contains {needle}: {shown}"),
+                    );
+                }
+            }
+        }
+    }
+    Ok(())
+}
+
+fn dbg2<T: std::fmt::Debug>(v: &T) -> Vec<String> {
+    vec![format!("{v:?}"), format!("{v:#?}")]
+}
+
+struct Secrets<C: Suite> {
+    sk: fc::SigningKey<C>,
+    secret_share: SecretShare<C>,
+    kp: KeyPackage<C>,
+    nonces: fc::round1::SigningNonces<C>,
+    r1: dkg::round1::SecretPackage<C>,
+    r2: dkg::round2::SecretPackage<C>,
+    r2_pkg: dkg::round2::Package<C>,
+}
+
+fn secrets<C: Suite>(rng: &mut TestRng, p: &Params) -> Result<Secrets<C>, Stop> {
+    let mut q = Params::generate_with(rng, 3, 2);
+    q.ids = p.ids.iter().take(3).cloned().collect();
+    if q.ids.len() < 3 {
+        q.ids = gen_ids(rng, "mixed", 3);
+    }
+    q.id_scheme = "custom";
+    let keys = keygen_dealer::<C>(rng, &q, false)?;
+    let id = match keys.ids.get(rng.below(keys.ids.len())) {
+        Some(i) => *i,
+        None => return skip("internal"),
+    };
+    let (secret_share, kp) = match (keys.secret_shares.as_ref().and_then(|m| m.get(&id)), keys.key_packages.get(&id)) {
+        (Some(a), Some(b)) => (a.clone(), b.clone()),
+        _ => return skip("internal"),
+    };
+    let (nonces, _) = fc::round1::commit::<C, _>(kp.signing_share(), rng);
+    let run = dkg_rounds::<C>(rng, &keys.ids, 3, 2, false)?;
+    let (r1, r2, r2_pkg) = match (run.r1_secret.get(&id), run.r2_secret.get(&id), run.r2_out.get(&id).and_then(|m| m.values().next())) {
+        (Some(a), Some(b), Some(c)) => (a.clone(), b.clone(), c.clone()),
+        _ => return skip("internal"),
+    };
+    Ok(Secrets {
+        sk: fc::SigningKey::<C>::new(rng),
+        secret_share,
+        kp,
+        nonces,
+        r1,
+        r2,
+        r2_pkg,
+    })
+}
+
+pub fn scenario_debug_is_redacted<C: Suite>(rng: &mut TestRng, p: &Params, notes: &mut Notes) -> Verdict {
+    let s = secrets::<C>(rng, p)?;
+    let _ = notes;
+    no_leak("SigningKey", &dbg2(&s.sk), &[("signing key", s.sk.serialize())])?;
+    no_leak("SigningShare", &dbg2(s.kp.signing_share()), &[("signing share", s.kp.signing_share().serialize())])?;
+    no_leak("SecretShare", &dbg2(&s.secret_share), &[("signing share", s.secret_share.signing_share().serialize())])?;
+    no_leak("KeyPackage", &dbg2(&s.kp), &[("signing share", s.kp.signing_share().serialize())])?;
+    no_leak(
+        "SigningNonces",
+        &dbg2(&s.nonces),
+        &[("hiding nonce", s.nonces.hiding().serialize()), ("binding nonce", s.nonces.binding().serialize())],
+    )?;
+    let coeffs: Vec<(&str, Vec<u8>)> = s.r1.coefficients().iter().map(|c| ("polynomial coefficient", scalar_bytes::<C>(c))).collect();
+    no_leak("dkg::round1::SecretPackage", &dbg2(&s.r1), &coeffs)?;
+    no_leak("dkg::round2::SecretPackage", &dbg2(&s.r2), &[("secret share", scalar_bytes::<C>(&s.r2.secret_share()))])?;
+    no_leak("dkg::round2::Package", &dbg2(&s.r2_pkg), &[("signing share", s.r2_pkg.signing_share().serialize())])?;
+    // containers of secret types
+    let v = vec![s.kp.clone(), s.kp.clone()];
+    no_leak("Vec<KeyPackage>", &dbg2(&v), &[("signing share", s.kp.signing_share().serialize())])?;
+    let o = Some(s.nonces.clone());
+    no_leak(
+        "Option<SigningNonces>",
+        &dbg2(&o),
+        &[("hiding nonce", s.nonces.hiding().serialize()), ("binding nonce", s.nonces.binding().serialize())],
+    )
+}
+
+pub fn scenario_zeroize_leaves_zero<C: Suite>(rng: &mut TestRng, p: &Params, notes: &mut Notes) -> Verdict {
+    let mut s = secrets::<C>(rng, p)?;
+    let _ = notes;
+    let z = scalar_bytes::<C>(&zero::<C>());
+    let is_zero = |b: Vec<u8>, what: &str| check(b == z, &format!("after zeroize() the {what} is zero"), hex(&z), hex(&b));
+
+    let mut share = *s.kp.signing_share();
+    share.zeroize();
+    is_zero(share.serialize(), "SigningShare")?;
+
+    s.secret_share.zeroize();
+    is_zero(s.secret_share.signing_share().serialize(), "signing share of SecretShare")?;
+
+    s.kp.zeroize();
+    is_zero(s.kp.signing_share().serialize(), "signing share of KeyPackage")?;
+
+    s.nonces.zeroize();
+    is_zero(s.nonces.hiding().serialize(), "hiding nonce of SigningNonces")?;
+    is_zero(s.nonces.binding().serialize(), "binding nonce of SigningNonces")?;
+
+    let mut nonce = fc::round1::Nonce::<C>::new(&share, rng);
+    nonce.zeroize();
+    is_zero(nonce.serialize(), "Nonce")?;
+
+    s.r1.zeroize();
+    for c in s.r1.coefficients() {
+        is_zero(scalar_bytes::<C>(&c), "polynomial coefficient of dkg::round1::SecretPackage")?;
+    }
+    s.r2.zeroize();
+    is_zero(scalar_bytes::<C>(&s.r2.secret_share()), "secret share of dkg::round2::SecretPackage")?;
+    s.r2_pkg.zeroize();
+    is_zero(s.r2_pkg.signing_share().serialize(), "signing share of dkg::round2::Package")
+}
